@@ -677,7 +677,8 @@ class ProductSpace(LinearSpace):
             return self.spaces[indices]
 
         elif isinstance(indices, slice):
-            return ProductSpace(*self.spaces[indices], field=self.field)
+            return ProductSpace(*self.spaces[indices],
+                                **self._subspace_kwargs(indices))
 
         elif isinstance(indices, tuple):
             # Use tuple indexing for recursive product spaces, i.e.,
@@ -712,11 +713,12 @@ class ProductSpace(LinearSpace):
                                      'product space: remaining indices '
                                      '{}'.format(rest_indcs))
                 if not rest_indcs:
-                    return ProductSpace(*spaces)
+                    return ProductSpace(*spaces,
+                                        **self._subspace_kwargs(idx))
                 elif all(isinstance(space, ProductSpace) for space in spaces):
                     return ProductSpace(
                         *(space[rest_indcs] for space in spaces),
-                        field=self.field)
+                        **self._subspace_kwargs(idx))
                 else:
                     raise IndexError('too many indices for recursive '
                                      'product space: remaining indices '
@@ -727,11 +729,27 @@ class ProductSpace(LinearSpace):
 
         elif isinstance(indices, list):
             return ProductSpace(*[self.spaces[i] for i in indices],
-                                field=self.field)
+                                **self._subspace_kwargs(indices))
 
         else:
             raise TypeError('`indices` must be integer, slice, tuple or '
                             'list, got {!r}'.format(indices))
+
+    def _subspace_kwargs(self, indices):
+        """Return constructor kwargs for the subspace ``self[indices]``.
+
+        The exponent and the weighting of the selected components are kept
+        for constant and array weightings. Custom weightings cannot be
+        restricted to a subspace, hence the default is used for them.
+        """
+        kwargs = {'field': self.field}
+        if isinstance(self.weighting, ProductSpaceArrayWeighting):
+            kwargs['weighting'] = ProductSpaceArrayWeighting(
+                self.weighting.array[indices],
+                exponent=self.weighting.exponent)
+        elif isinstance(self.weighting, ProductSpaceConstWeighting):
+            kwargs['weighting'] = self.weighting
+        return kwargs
 
     def __str__(self):
         """Return ``str(self)``."""
